@@ -24,7 +24,7 @@ fn name(cn: &str) -> openssl::x509::X509Name {
 }
 
 /// certs[i]: {"name","issuer": index, "ca": bool, "nb": unix, "na": unix, "bad_sig": bool, "issuer_name": optional override}
-pub fn build(specs: &[Value]) -> Vec<Vec<u8>> {
+pub fn build(specs: &[Value]) -> (Vec<Vec<u8>>, Vec<Vec<u8>>) {
     let keys: Vec<PKey<Private>> = specs.iter().map(|_| key()).collect();
     let stray = key();
     let mut out = vec![];
@@ -58,7 +58,13 @@ pub fn build(specs: &[Value]) -> Vec<Vec<u8>> {
         let c: X509 = b.build();
         out.push(c.to_der().unwrap());
     }
-    out
+    let g = EcGroup::from_curve_name(Nid::X9_62_PRIME256V1).unwrap();
+    let mut ctx = openssl::bn::BigNumContext::new().unwrap();
+    let pks = keys
+        .iter()
+        .map(|k| k.ec_key().unwrap().public_key().to_bytes(&g, openssl::ec::PointConversionForm::UNCOMPRESSED, &mut ctx).unwrap())
+        .collect();
+    (out, pks)
 }
 
 fn verdict<E: std::fmt::Debug>(r: Result<mls_rs_core::crypto::SignaturePublicKey, E>) -> Value {
@@ -73,13 +79,16 @@ fn verdict<E: std::fmt::Debug>(r: Result<mls_rs_core::crypto::SignaturePublicKey
 
 pub fn run_case(q: &Value) -> Map<String, Value> {
     let specs = q["certs"].as_array().cloned().unwrap_or_default();
-    let ders = build(&specs);
+    let (ders, pks) = build(&specs);
     let idx = |v: &Value| -> Vec<usize> { v.as_array().cloned().unwrap_or_default().iter().filter_map(|x| x.as_u64()).map(|x| x as usize).collect() };
     let chain: Vec<DerCertificate> = idx(&q["chain"]).into_iter().filter_map(|i| ders.get(i)).map(|d| DerCertificate::from(d.clone())).collect();
     let roots: Vec<DerCertificate> = idx(&q["roots"]).into_iter().filter_map(|i| ders.get(i)).map(|d| DerCertificate::from(d.clone())).collect();
     let time = q["time"].as_u64().map(MlsTime::from);
     let cc = CertificateChain::from(chain);
     let mut out = Map::new();
+    if let Some(pk) = idx(&q["chain"]).first().and_then(|i| pks.get(*i)) {
+        out.insert("leaf_pk".into(), json!(hex::encode(pk)));
+    }
     out.insert(
         "openssl".into(),
         std::panic::catch_unwind(|| match mls_rs_crypto_openssl::x509::X509Validator::new(roots.clone()) {
